@@ -230,6 +230,7 @@ def replay(obname, model, result):
                 "    if 374.15 < t <= 590.: cands += [(t, T.b23p(t) * (1 - 1e-9)), (t, T.b23p(t) * (1 + 1e-9))]\n"
                 "ok, detail = True, ''\n"
                 "for t, p in cands:\n"
+                "    if p == 0: continue   # zero pressure divides by zero in both formulations: outside the contract (p > 0)\n"
                 "    r = getattr(T, %r)(t, p, True)\n"
                 "    none = (r[0] is None and r[1] is None)\n"
                 "    if none == inrange(t, p):\n"
